@@ -213,6 +213,18 @@ def wl_refprover(ctx, config):
             if all(fz[t] for t in range(len(used)) if t != idx): fz[(idx + 1) % len(used)] = 0
             sz = sj.prove(S.in_pts, S.out_pt, used, idx, sec, fz, rng.randrange(1, n))
             if sz is not None: vcase(ctx, config, sz, S.in_pts, S.in_obj, S.out_pt, S.out_obj, "refprover:forged_scalar_zero")
+        # a SELECTED input equal to the output makes that ring member the point at infinity.  Two forgeries that then close the ring and
+        # must still be rejected: (a) an honest signer at another position, (b) "signing" at the infinite member itself with secret 0
+        # (its chain value s*G does not depend on the challenge), which needs no secret at all
+        if nin >= 1:
+            ip = list(S.in_pts); io = list(S.in_obj); j = rng.choice([x for x in range(nin) if x != match] or [match])
+            ip[j] = S.out_pt; io[j] = S.out_obj
+            used2 = sorted(set(used) | {j}); fz = [rng.randrange(1, n) for _ in used2]
+            if j != match:
+                sa = sj.prove(ip, S.out_pt, used2, used2.index(match), sec, fz, rng.randrange(1, n), allow_infinite_member=True)
+                if sa is not None: vcase(ctx, config, sa, ip, io, S.out_pt, S.out_obj, "selected_input_equals_output:honest_signer_elsewhere")
+            sb2 = sj.prove(ip, S.out_pt, used2, used2.index(j), 0, fz, rng.randrange(1, n), allow_infinite_member=True)
+            if sb2 is not None: vcase(ctx, config, sb2, ip, io, S.out_pt, S.out_obj, "selected_input_equals_output:forged_without_secret")
         # empty selection: canonical string with a zero bitmap
         empty = sj.serialize(nin, bytes(bl), pools.rbytes(rng, 32), [])
         vcase(ctx, config, empty, S.in_pts, S.in_obj, S.out_pt, S.out_obj, "empty_selection")
